@@ -68,6 +68,10 @@ unsafe impl GlobalAlloc for TrackAlloc {
     }
 }
 
+/// is control currently inside the crate (as opposed to harness code or a harness callback)?
+pub fn inside_crate() -> bool {
+    IN_CRATE.with(|c| c.get() > 0)
+}
 pub fn crate_allocs() -> u64 {
     CRATE_ALLOCS.with(|c| c.get())
 }
@@ -118,6 +122,8 @@ pub enum Mode {
     Relay,
     /// panics (unwinds through the crate) at its first poll, afterwards behaves like a released Gate
     PanicOnce,
+    /// completes at its first poll; its destructor panics (once, and never while already unwinding)
+    DropPanic,
     /// a stream child (merge source) driven by a script
     Stream,
 }
@@ -126,6 +132,8 @@ pub enum Mode {
 pub enum Step {
     Item,
     Pend,
+    /// yields an item and invokes its own waker in the same poll (a cooperative yield)
+    ItemWake,
 }
 
 #[derive(Clone, Copy, PartialEq, Eq, Hash, Debug)]
@@ -307,6 +315,8 @@ pub struct World {
     pub z_created: u32,
     pub z_drops: u32,
     pub z_completed: u32,
+    /// destructors of children that panicked so far (liveness oracles are void afterwards)
+    pub drop_panics: u32,
     // slot occupancy (RawWaker data pointer -> child)
     pub occupant: Vec<(usize, u32)>,
     // flags
@@ -370,6 +380,7 @@ impl World {
             z_created: 0,
             z_drops: 0,
             z_completed: 0,
+            drop_panics: 0,
             occupant: Vec::new(),
             draining: false,
             dormant: false,
@@ -410,6 +421,19 @@ impl World {
 
     pub fn violate(&mut self, prop: &'static str, key: impl Into<String>, msg: impl Into<String>) {
         let key = key.into();
+        // once a child's destructor has panicked, the output it had just produced is legitimately lost
+        // (it was destroyed by the unwinding): counting/liveness oracles are void for the rest of the
+        // execution; the safety oracles (foreign values, double drops, leaks of other objects, moves,
+        // use after release) stay in force
+        const VOID_AFTER_DROP_PANIC: &[&str] = &[
+            "pending-while-empty", "none-while-holding", "queue-ended-before-front", "does-not-finish", "accepted-never-yielded",
+            "queue-item-never-yielded", "item-lost", "output-or-error-lost", "len-mismatch", "is_empty-mismatch", "size_hint-mismatch",
+            "is_terminated-mismatch", "refusal-disturbed-held-futures", "lower-bound-too-high", "upper-bound-too-low", "ended-early",
+            "pending-after-exhaustion", "not-work-conserving", "closure-call-count",
+        ];
+        if self.drop_panics > 0 && VOID_AFTER_DROP_PANIC.contains(&key.as_str()) {
+            return;
+        }
         if self.violations.iter().any(|v| v.prop == prop && v.key == key) {
             return;
         }
@@ -1043,6 +1067,7 @@ fn script_poll<O: Out>(id: u32, addr: usize, cx: &mut Context<'_>) -> Poll<O> {
                             Act::RelayPending(None)
                         }
                     }
+                    Mode::DropPanic => Act::Complete,
                     Mode::PanicOnce => {
                         if c.polls <= 1 && !draining {
                             Act::Panic
@@ -1133,7 +1158,27 @@ impl<O: Out> Drop for ScriptFut<O> {
     fn drop(&mut self) {
         let id = self.id;
         let addr = self as *const Self as usize;
-        callback(|| w(|w| child_dropped(w, id, addr)))
+        // the destructor only panics when it is the crate that drops the child
+        let by_crate = inside_crate();
+        let boom = by_crate && callback(|| {
+            w(|w| {
+                child_dropped(w, id, addr);
+                let c = &w.children[id as usize];
+                if c.mode == Mode::DropPanic && c.drops == 1 && !std::thread::panicking() {
+                    w.drop_panics += 1;
+                    w.logf(|| format!("    child {}'s destructor panics", id));
+                    true
+                } else {
+                    false
+                }
+            })
+        });
+        if !by_crate {
+            callback(|| w(|w| child_dropped(w, id, addr)));
+        }
+        if boom {
+            std::panic::resume_unwind(Box::new(ChildPanic(id)));
+        }
     }
 }
 
@@ -1153,6 +1198,7 @@ impl ScriptStream {
 enum SAct {
     Bad,
     Item(u32),
+    ItemWake(u32),
     Pending,
     End,
 }
@@ -1197,6 +1243,12 @@ impl Stream for ScriptStream {
                             c.next_seq += 1;
                             break SAct::Item(s);
                         }
+                        Some(Step::ItemWake) => {
+                            c.cursor += 1;
+                            let s = c.next_seq;
+                            c.next_seq += 1;
+                            break SAct::ItemWake(s);
+                        }
                         Some(Step::Pend) => {
                             if c.fed || draining {
                                 c.fed = false;
@@ -1209,7 +1261,7 @@ impl Stream for ScriptStream {
                 };
                 match act {
                     SAct::Bad => w.spin_hit = true,
-                    SAct::Item(_) => {
+                    SAct::Item(_) | SAct::ItemWake(_) => {
                         c.last_answer = Ans::Item;
                         c.items += 1;
                         w.items_total += 1;
@@ -1226,6 +1278,11 @@ impl Stream for ScriptStream {
                 SAct::Bad => Poll::Pending,
                 SAct::Item(s) => {
                     w(|w| w.logf(|| format!("    source {} polled -> Item #{}", id, s)));
+                    Poll::Ready(Some(Tok::produce(id, s, false)))
+                }
+                SAct::ItemWake(s) => {
+                    w(|w| w.logf(|| format!("    source {} polled -> wakes itself, Item #{}", id, s)));
+                    invoke_child_waker(cx.waker());
                     Poll::Ready(Some(Tok::produce(id, s, false)))
                 }
                 SAct::Pending => {
